@@ -1962,6 +1962,14 @@ class Exec:
                             res.append((s2, self.new_buf(s2, zz) if name == 'bytearray' else VBytes(zz)))
                         return res
                     z = self.lit_bytes(bytes(c))
+                elif isinstance(A[0], VObj) and name == 'bytes':
+                    # bytes(obj): the object's __bytes__
+                    res = []
+                    for s2, m in self.getattr(A[0], '__bytes__', st, ctx, n):
+                        if isinstance(m, Raise):
+                            raise ToolLimit('bytes() of an object without __bytes__')
+                        res += self.call(m, [], {}, s2, ctx, n, env)
+                    return res
                 else:
                     raise ToolLimit('bytes(%s)' % type(A[0]).__name__)
                 return [(st, self.new_buf(st, z) if name == 'bytearray' else VBytes(z))]
